@@ -30,6 +30,12 @@ pub mod recon;
 
 use recon::MapOperationReconEncoder;
 
+#[cfg(swimos_verif)]
+pub mod verif_hooks {
+    pub use super::key::ReconKey;
+    pub use super::map_queue::MapOperationQueue;
+}
+
 type RawMapOperation = MapOperation<Bytes, BytesMut>;
 type RawMapOperationMut = MapOperation<BytesMut, BytesMut>;
 
@@ -235,5 +241,12 @@ impl Display for InvalidKey {
 impl InvalidKey {
     pub fn new(key_bytes: Bytes, source: Utf8Error) -> Self {
         InvalidKey { key_bytes, source }
+    }
+}
+
+#[cfg(swimos_verif)]
+impl MapBackpressure {
+    pub fn verif_key(&self) -> String {
+        self.queue.verif_key()
     }
 }
